@@ -368,7 +368,7 @@ ADDENDA = {
     'C07': ' Regenerated obligation start_cycle_step_order (connect, reset, the three tasks, their end, close, back-off delay). Round 8: the simulators rotate the log level (TRACE .. CRITICAL, records discarded) and the application hook extends the library SimpleHook, so log.py and hook.py run as deployed; runs with application traffic (plain, unbuildable, segmented messages queued at any time, all bind modes) judged by the predicates. Theorem connections_closed (Model/Supervisor.lean conns, driver op supc): every connection that is established is closed, one at a time, each before the next is opened and before start() returns; the observed open / close times of the traffic-free runs are compared with the model\'s. Round 9: a peer that stops reading and answering while the Sender is suspended in drain() on a backlog (dead_peer_case); regenerated obligation keeper_step_order.',
     'C01': ' Session ledger additions: UDH-segmented messages; messages queued while the session is winding down after a drop; a message '
            'no Sender task reported is the known cancelled-sender finding only if the task holding it was cancelled, not if it ended of '
-           'its own accord. Regenerated obligation handle_response_step_order. Round 8: sessions with a correlator that persists to files and texts with lone surrogates / astral characters sent with error_handling=replace. Round 9: every submit_sm of a message with a text outside the GSM alphabet is read on the wire (UCS2, also when the same object is sent again after a failed transmission); stray responses to submit_sm whose transmission had failed.',
+           'its own accord. Regenerated obligation handle_response_step_order. Round 8: sessions with a correlator that persists to files and texts with lone surrogates / astral characters sent with error_handling=replace. Round 9: every submit_sm of a message with a text outside the GSM alphabet is read on the wire (UCS2, also when the same object is sent again after a failed transmission); stray responses to submit_sm whose transmission had failed. The await points of _send_data are regenerated from the source (theorem send_data_await_points); directed sessions in which a response is processed while the put of its own request is suspended (plain and segmented).',
     'C02': ' Regenerated obligations: handle_request_step_order, get_delivery_step_order (Gen/Site.lean). Round 8: (no addition; the jsonutils and stale-status changes are caught by the restart histories and the reference-reuse cases). Round 9: registered_delivery varied over every receipt-requesting value; regenerated obligation response_handler_awaits_directly.',
     'C04': ' Foreign PDUs also carry absolute validity periods with every quarter-hour offset of both signs and relative schedule times; '
            'PDUs are decoded after PDUs the library refuses (decoder keeps no state). Round 8: the wire of the real Sender for messages it segments, with the 0..255 reference generator standing at 253..255 and 0 (session_segments_case of C08). Round 9: large PDUs (17 .. 70 KB) under back-pressure judged by the C15 monitor.',
